@@ -888,7 +888,7 @@ def _propagate_field_reads(tree: ast.AST, computed: Set[str] = frozenset()):
         for n in ast.walk(fn):
             if isinstance(n, ast.Attribute) and isinstance(n.ctx, (ast.Store, ast.Del)):
                 attr_stores.add(n.attr)
-        for _round in range(6):
+        for _round in range(40):
             stores: Dict[str, int] = {}
             nested = set()
             for n in ast.walk(fn):
@@ -919,9 +919,15 @@ def _propagate_field_reads(tree: ast.AST, computed: Set[str] = frozenset()):
                         if not isinstance(e, ast.Name):
                             continue
                         b = e.id
-                        if a in params or a in nested or stores.get(a) != 1 or a == b or set(chain) & attr_stores or b in ("self", "cls") or set(chain) & computed:
+                        if a in params or a in nested or stores.get(a) != 1 or a == b or set(chain) & attr_stores or set(chain) & computed:
                             continue
                         rest = blk[k + 1:]
+                        if b in ("self", "cls"):
+                            # a field of the receiver: stable while a is live only if no method of the receiver runs in between
+                            # (a method may reassign the field) - property reads are fine, they are read-only accessors here
+                            if any(isinstance(x, ast.Call) and isinstance(x.func, ast.Attribute) and isinstance(x.func.value, ast.Name) and x.func.value.id == b
+                                   for s_ in rest for x in ast.walk(s_)):
+                                continue
                         # b must not be rebound while a is live, and every read of a must be in the rest of this block
                         if b in _stored_names(rest):
                             continue
@@ -1049,7 +1055,7 @@ def _inline_adjacent_temporaries(tree: ast.AST):
     for fn in [n for n in ast.walk(tree) if isinstance(n, (ast.FunctionDef, ast.AsyncFunctionDef))]:
         a_ = fn.args
         params = {x.arg for x in a_.args + a_.kwonlyargs + a_.posonlyargs} | ({a_.vararg.arg} if a_.vararg else set()) | ({a_.kwarg.arg} if a_.kwarg else set())
-        for _round in range(6):
+        for _round in range(40):
             loads: Dict[str, int] = {}
             stores: Dict[str, int] = {}
             nested = set()
